@@ -253,262 +253,329 @@ def run(prop, tier, sd, rep, clauses, modes):
     pl.build_tools()
     with pl.Work(prop) as w:
         cli = pl.build_cli(w)
-        root = pl.make_scratch(w, decls)
-        gen = pl.generate_all(cli, root, decls)
-        gen_fail = {i: e for i, (rc, e) in gen.items() if rc != 0}
-        ok = [d['id'] for d in decls if d['id'] not in gen_fail]
-        pkg = {d['id']: pl.pkg_of(d) for d in decls}
-        dgp = pl.drivergen_all(root, sorted({pkg[i] for i in ok}))
-        dg_fail = {i: dgp[pkg[i]][1] for i in ok if dgp[pkg[i]][0] != 0}
-        ok = [i for i in ok if i not in dg_fail]
-        progs = {}
-        for i in ok:
-            progs[i] = wb.extract(os.path.join(root, pkg[i]), byid[i])
-        builtp = pl.build_drivers(root, sorted({pkg[i] for i in ok}), race=True)
-        comp_fail = {i: builtp[pkg[i]] for i in ok if builtp[pkg[i]]}
-        harness_broke = {i: e for i, e in comp_fail.items() if 'verif_' in e or re.search(r'/k\.go:\d+', e) or '/main.go:' in e}
-        if harness_broke:
-            raise pl.ExitTwo('the harness\'s own instrumentation of the generated file does not compile: %s' % json.dumps(list(harness_broke.items())[:2])[:1500])
-        ok = [i for i in ok if i not in comp_fail]
-        if len(ok) < max(3, len(decls) // 2):
-            raise pl.ExitTwo('only %d of %d declarations reached an executable injector (generator refused %d, driver %d, '
-                             'compile errors %d): %s' % (len(ok), len(decls), len(gen_fail), len(dg_fail), len(comp_fail),
-                                                         json.dumps({'gen': list(gen_fail.items())[:2],
-                                                                     'dg': list(dg_fail.items())[:2],
-                                                                     'comp': list(comp_fail.items())[:2]})[:3000]))
         maxruns = int(os.environ.get('VERIF_MAXRUNS', '150' if quick else '600'))
-        gmps = [None] if quick else [None, 1, 4]
-
-        # ---- B2: real executions -------------------------------------------------------------------------------
-        jobs = [(i, g) for i in ok for g in gmps]
-        results = pl.pmap(lambda j: pl.run_driver(root, pkg[j[0]], modes=modes, maxruns=maxruns, seed=sd, gomaxprocs=j[1],
-                                                  timeout=900, decl=j[0]), jobs)
-        trace_parts = []
-        nexec = 0
-        exhaustive_progs = 0
-        crashed = []
-        for (i, g), r in zip(jobs, results):
-            if os.path.exists(r['trace']):
-                trace_parts.append(open(r['trace']).read())
-            sp = r['trace'] + '.summary'
-            if os.path.exists(sp):
-                s = json.load(open(sp))
-                nexec += s['executions']
-                if g is None and all(m['exhaustive'] for m in s['modes'].values()):
-                    exhaustive_progs += 1
-            if r['rc'] not in (0, 66):
-                crashed.append((i, g, r))
-        # race reports
-        races = []
-        for i in ok:
-            for fn in os.listdir(os.path.join(root, pkg[i])):
-                if fn.startswith('race-%s.' % i):
-                    races.append((i, open(os.path.join(root, pkg[i], fn)).read()))
-        # re-number executions globally so that (tr) is unique per file
-        lines = []
-        trid = {}
-        events_by_tr = collections.defaultdict(list)
-        for part in trace_parts:
-            local = {}
-            for ln in part.splitlines():
-                if not ln.strip():
-                    continue
-                ev = json.loads(ln)
-                k = ev['tr']
-                if k not in local:
-                    local[k] = len(trid) + len(local)
-                ev['tr'] = local[k]
-                events_by_tr[ev['tr']].append(ev)
-                lines.append(json.dumps(ev))
-            for k, v in local.items():
-                trid[v] = True
-        ntraces = len(events_by_tr)
-        if ntraces == 0:
-            raise pl.ExitTwo('no execution was recorded')
-        # validate against InjectorReq.tla in parallel chunks (executions grouped by declaration; one TLC process each)
-        decl_of_tr = {tr: evs[0].get('decl') for tr, evs in events_by_tr.items() if evs and evs[0].get('ev') == 'Call'}
-        nchunk = max(1, min(pl.NCPU, len(lines) // 40000 + 1))
-        dl = sorted({d for d in decl_of_tr.values() if d})
-        chunk_of = {d: k % nchunk for k, d in enumerate(dl)}
-        clines = [[] for _ in range(nchunk)]
-        for tr in sorted(events_by_tr):
-            d = decl_of_tr.get(tr)
-            if d is None:
-                continue
-            clines[chunk_of[d]].extend(json.dumps(e) for e in events_by_tr[tr])
-
-        def req_chunk(k):
-            if not clines[k]:
-                return {'viol': [], 'lines': 0}, 0
-            dd = [ds.tla_decl(byid[i]) for i in dl if chunk_of[i] == k]
-            r = pl.tlc(w, 'InjectorReq', 'InjectorReq.cfg', files={'decls.json': json.dumps(dd), 'trace.ndjson': '\n'.join(clines[k]) + '\n'},
-                       workers=1, timeout=6000, name='req-%d' % k)
-            vp = os.path.join(r['dir'], 'viol.json')
-            if r['rc'] != 0 or not os.path.exists(vp):
-                raise pl.ExitTwo('trace validation against InjectorReq.tla failed (rc=%s): %s %s' % (r['rc'], r['out'][-3000:], r['err'][-1000:]))
-            vjk = json.load(open(vp))
-            if vjk['lines'] != len(clines[k]):
-                raise pl.ExitTwo('InjectorReq consumed %d of %d trace lines' % (vjk['lines'], len(clines[k])))
-            st_, _ = pl.tlc_stats(r['out'])
-            return vjk, st_
-        vj = {'viol': []}
-        req_states = 0
-        for vjk, st_ in pl.pmap(req_chunk, range(nchunk), workers=min(nchunk, 8)):
-            vj['viol'].extend(vjk['viol'])
-            req_states += st_
-
-        real_sigs = collections.defaultdict(list)   # sig -> [(decl, tr)]
-        for v in vj['viol']:
-            if v['clause'] not in clauses:
-                continue
-            did = v['decl']
-            prog = progs[did]
-            evs = events_by_tr.get(v['tr'], [])
-            rline = 0
-            parked = []
-            for e in evs:
-                if e['ev'] == 'Return':
-                    rline = e['site']
-                if e['ev'] in ('Final', 'Hang'):
-                    parked = [p['line'] for p in e['parked']]
-                if e['ev'] == 'Quiesced' and e['point'] == 'after-return' and v['clause'] == 'C03.join' and not parked:
-                    parked = [p['line'] for p in e['parked']]
-            sig = signature(v['clause'], prog, rline, parked)
-            real_sigs[sig].append((did, v['tr'], v))
-        for i, txt in races:
-            if 'C01.race' in clauses:
-                real_sigs['C01.race|race-detector'].append((i, -1, {'detail': txt[:3000]}))
-            else:
-                rep.notes.append('race detector report on %s (C01\'s business): %s' % (i, txt[:400]))
-        panic_clause = {'C03': 'C03.panic', 'C06': 'C06.panic', 'C07': 'C07.panic'}.get(prop)
-        for i, g, r_ in crashed:
-            msg = r_['stderr']
-            m = re.search(r'panic: ([^\n]*)', msg)
-            top = re.search(r'goroutine \d+ \[running\]:\n(\S+)', msg)
-            in_harness = bool(top and top.group(1).startswith('scratch/rt.'))
-            if m and 'rt.' not in m.group(1) and not in_harness:
-                if panic_clause:
-                    real_sigs[panic_clause + '|' + m.group(1).strip()[:80]].append((i, -1, {'detail': msg[-3000:]}))
-                else:
-                    rep.notes.append('injector of %s panicked (%s): business of C03/C06/C07' % (i, m.group(1)[:100]))
-            else:
-                rep.problem('driver of %s (GOMAXPROCS=%s) exited with %s: %s' % (i, g, r_['rc'], msg[-1500:]))
-
-        # ---- B1: exhaustive interleavings of the extracted programs ------------------------------------------
-        mdecls = [byid[i] for i in ok]
-        mprogs = [progs[i] for i in ok]
-        unmodelled = {p['decl']: p['unmodelled'] for p in mprogs if p['unmodelled']}
-        flags, mstates, mtrans, _ = wb.model_check(w, mdecls, mprogs, modes='none' if modes == 'none' else None)
-        # white-box conformance: real executions must be behaviours of the extracted programs (InjectorTrace.tla)
-        tbd = collections.defaultdict(list)
-        for tr, evs in events_by_tr.items():
-            if evs and evs[0].get('ev') == 'Call':
-                tbd[evs[0]['decl']].append(evs)
-        wt_ok, wt_states, wt_fail = wb.trace_validate(w, mdecls, mprogs, tbd, per_prog=4 if quick else 12, cap=500 if quick else 4000)
-        for did, ti, pos, around in wt_fail:
-            rep.problem('Injector.tla cannot explain a real execution of %s (trace %d, stuck before visible event %d: %s): the model of Go\'s '
-                        'primitives or the extractor misrepresents the generated code' % (did, ti, pos, json.dumps(around)[:400]))
-        model_sigs = collections.defaultdict(list)
-        witness = set()
-        wanted_modes = set(modes.split(','))
-
-        def mode_name(m):
-            m = sorted(m)
-            return {(): 'none', ('fail',): 'fail', ('cancel',): 'cancel', ('cancel', 'fail'): 'failcancel'}[tuple(m)]
-        for f in flags:
-            c = f['f']['clause']
-            if c == 'C05.witness':
-                witness.add(f['prog'])
-                continue
-            if c not in clauses or mode_name(f['mode']) not in wanted_modes:
-                continue
-            prog = progs[f['prog']]
-            sig = signature(c, prog, f['f']['rline'], f['f']['parked'])
-            model_sigs[sig].append((f['prog'], mode_name(f['mode']), f['f']))
-        if prop == 'C05':
-            for d in mdecls:
-                if d['id'] in unmodelled:
-                    continue
-                e = {p['id']: p for p in ds.eff_providers(d)}
-                zia = [p for p in ds.needed(d) if e[p]['kind'] == 'fn' and e[p]['async'] and not e[p]['requires']]
-                if len(zia) >= 2 and d['id'] not in witness:
-                    model_sigs['C05.overlap'].append((d['id'], 'none', {}))
-
-        # ---- verdicts ------------------------------------------------------------------------------------------
-        def replay_of(did, tr):
-            d = byid[did]
-            src = ''
-            try:
-                src = open(os.path.join(root, pkg[did], 'k_band.go.orig')).read()
-            except OSError:
-                pass
-            evs = events_by_tr.get(tr, [])
-            path = None
-            for e in evs:
-                if e['ev'] == 'End':
-                    path = e['path']
-            return {'decl': d, 'generated': src, 'path': path, 'events': evs[:200]}
-
-        for sig, occ in sorted(real_sigs.items()):
-            did, tr, v = occ[0]
-            what = '%s on declaration %s (%d occurrence(s) in %d declaration(s)); detail=%s' % (
-                sig, did, len(occ), len({o[0] for o in occ}), json.dumps(v.get('detail', ''))[:300])
-            rep.found(sig, what, replay_of(did, tr))
-        model_only = {s: o for s, o in model_sigs.items() if s not in real_sigs}
         opn, _ = load_known()
-        unrepro = []
-        for sig, occ in sorted(model_only.items()):
-            # re-drive the real injector of up to 3 of the programs concerned: more schedules, three GOMAXPROCS values
-            reproduced = False
-            for did in sorted({o[0] for o in occ})[:3]:
-                for g in (1, 2, 16):
-                    rr = pl.run_driver(root, pkg[did], modes=modes, maxruns=maxruns * 4, seed=sd + 17 * g, gomaxprocs=g,
-                                       timeout=900, out=os.path.join(root, pkg[did], 'redrive-%s-%d.ndjson' % (did, g)), decl=did)
-                    if not os.path.exists(rr['trace']):
+        agg = {'ok': [], 'progs': {}, 'gen_fail': {}, 'comp_fail': {}, 'dg_fail': {}, 'unmodelled': {}, 'mstates': 0, 'mtrans': 0, 'nlines': 0,
+               'nexec': 0, 'exhaustive_progs': 0, 'real_sigs': collections.Counter(), 'model_sigs': collections.Counter(), 'wt_ok': 0, 'wt_states': 0,
+               'req_states': 0, 'ntraces': 0, 'nmodelled': 0, 'sample': None, 'nontrivial': 0}
+        all_decls = decls
+        byid_all = byid
+        slice_size = 400 if quick else 120
+        slices = [all_decls[i:i + slice_size] for i in range(0, len(all_decls), slice_size)]
+        # members of one multi-declaration package must stay in one slice
+        grouped = [d for d in all_decls if d.get('group')]
+        if grouped:
+            slices = [[d for d in sl if not d.get('group')] for sl in slices]
+            slices = [sl for sl in slices if sl]
+            slices.append(grouped)
+        real_sig_names = set()
+
+        def do_slice(decls, sk):
+            byid = {d['id']: d for d in decls}
+            root = pl.make_scratch(w, decls, 'scratch%d' % sk)
+            gen = pl.generate_all(cli, root, decls)
+            gen_fail = {i: e for i, (rc, e) in gen.items() if rc != 0}
+            ok = [d['id'] for d in decls if d['id'] not in gen_fail]
+            pkg = {d['id']: pl.pkg_of(d) for d in decls}
+            dgp = pl.drivergen_all(root, sorted({pkg[i] for i in ok}))
+            dg_fail = {i: dgp[pkg[i]][1] for i in ok if dgp[pkg[i]][0] != 0}
+            ok = [i for i in ok if i not in dg_fail]
+            progs = {}
+            for i in ok:
+                progs[i] = wb.extract(os.path.join(root, pkg[i]), byid[i])
+            builtp = pl.build_drivers(root, sorted({pkg[i] for i in ok}), race=True)
+            comp_fail = {i: builtp[pkg[i]] for i in ok if builtp[pkg[i]]}
+            harness_broke = {i: e for i, e in comp_fail.items() if 'verif_' in e or re.search(r'/k\.go:\d+', e) or '/main.go:' in e}
+            if harness_broke:
+                raise pl.ExitTwo('the harness\'s own instrumentation of the generated file does not compile: %s' % json.dumps(list(harness_broke.items())[:2])[:1500])
+            ok = [i for i in ok if i not in comp_fail]
+            if len(ok) < max(3, len(decls) // 2):
+                raise pl.ExitTwo('only %d of %d declarations reached an executable injector (generator refused %d, driver %d, '
+                                 'compile errors %d): %s' % (len(ok), len(decls), len(gen_fail), len(dg_fail), len(comp_fail),
+                                                             json.dumps({'gen': list(gen_fail.items())[:2],
+                                                                         'dg': list(dg_fail.items())[:2],
+                                                                         'comp': list(comp_fail.items())[:2]})[:3000]))
+            maxruns = int(os.environ.get('VERIF_MAXRUNS', '150' if quick else '600'))
+            gmps = [None] if quick else [None, 1, 4]
+
+            # ---- B2: real executions -------------------------------------------------------------------------------
+            jobs = [(i, g) for i in ok for g in gmps]
+            results = pl.pmap(lambda j: pl.run_driver(root, pkg[j[0]], modes=modes, maxruns=maxruns, seed=sd, gomaxprocs=j[1],
+                                                      timeout=900, decl=j[0]), jobs)
+            trace_parts = []
+            nexec = 0
+            exhaustive_progs = 0
+            crashed = []
+            for (i, g), r in zip(jobs, results):
+                if os.path.exists(r['trace']):
+                    trace_parts.append(open(r['trace']).read())
+                sp = r['trace'] + '.summary'
+                if os.path.exists(sp):
+                    s = json.load(open(sp))
+                    nexec += s['executions']
+                    if g is None and all(m['exhaustive'] for m in s['modes'].values()):
+                        exhaustive_progs += 1
+                if r['rc'] not in (0, 66):
+                    crashed.append((i, g, r))
+            # race reports
+            races = []
+            for i in ok:
+                for fn in os.listdir(os.path.join(root, pkg[i])):
+                    if fn.startswith('race-%s.' % i):
+                        races.append((i, open(os.path.join(root, pkg[i], fn)).read()))
+            # re-number executions globally so that (tr) is unique per file
+            lines = []
+            trid = {}
+            events_by_tr = collections.defaultdict(list)
+            for part in trace_parts:
+                local = {}
+                for ln in part.splitlines():
+                    if not ln.strip():
                         continue
-                    txt = open(rr['trace']).read()
-                    r2 = pl.tlc(w, 'InjectorReq', 'InjectorReq.cfg',
-                                files={'decls.json': json.dumps([ds.tla_decl(byid[did])]), 'trace.ndjson': txt},
-                                workers=1, timeout=1200, name='redrive-%s-%d-%d' % (did, g, abs(hash(sig)) % 100000))
-                    vp2 = os.path.join(r2['dir'], 'viol.json')
-                    if not os.path.exists(vp2):
+                    ev = json.loads(ln)
+                    k = ev['tr']
+                    if k not in local:
+                        local[k] = len(trid) + len(local)
+                    ev['tr'] = local[k]
+                    events_by_tr[ev['tr']].append(ev)
+                    lines.append(json.dumps(ev))
+                for k, v in local.items():
+                    trid[v] = True
+            ntraces = len(events_by_tr)
+            if ntraces == 0:
+                raise pl.ExitTwo('no execution was recorded')
+            # validate against InjectorReq.tla in parallel chunks (executions grouped by declaration; one TLC process each)
+            decl_of_tr = {tr: evs[0].get('decl') for tr, evs in events_by_tr.items() if evs and evs[0].get('ev') == 'Call'}
+            nchunk = max(1, min(pl.NCPU, len(lines) // 40000 + 1))
+            dl = sorted({d for d in decl_of_tr.values() if d})
+            chunk_of = {d: k % nchunk for k, d in enumerate(dl)}
+            clines = [[] for _ in range(nchunk)]
+            for tr in sorted(events_by_tr):
+                d = decl_of_tr.get(tr)
+                if d is None:
+                    continue
+                clines[chunk_of[d]].extend(json.dumps(e) for e in events_by_tr[tr])
+
+            def req_chunk(k):
+                if not clines[k]:
+                    return {'viol': [], 'lines': 0}, 0
+                dd = [ds.tla_decl(byid[i]) for i in dl if chunk_of[i] == k]
+                r = pl.tlc(w, 'InjectorReq', 'InjectorReq.cfg', files={'decls.json': json.dumps(dd), 'trace.ndjson': '\n'.join(clines[k]) + '\n'},
+                           workers=1, timeout=6000, name='req-%d-%d' % (sk, k))
+                vp = os.path.join(r['dir'], 'viol.json')
+                if r['rc'] != 0 or not os.path.exists(vp):
+                    raise pl.ExitTwo('trace validation against InjectorReq.tla failed (rc=%s): %s %s' % (r['rc'], r['out'][-3000:], r['err'][-1000:]))
+                vjk = json.load(open(vp))
+                if vjk['lines'] != len(clines[k]):
+                    raise pl.ExitTwo('InjectorReq consumed %d of %d trace lines' % (vjk['lines'], len(clines[k])))
+                st_, _ = pl.tlc_stats(r['out'])
+                return vjk, st_
+            vj = {'viol': []}
+            req_states = 0
+            for vjk, st_ in pl.pmap(req_chunk, range(nchunk), workers=min(nchunk, 8)):
+                vj['viol'].extend(vjk['viol'])
+                req_states += st_
+
+            real_sigs = collections.defaultdict(list)   # sig -> [(decl, tr)]
+            for v in vj['viol']:
+                if v['clause'] not in clauses:
+                    continue
+                did = v['decl']
+                prog = progs[did]
+                evs = events_by_tr.get(v['tr'], [])
+                rline = 0
+                parked = []
+                for e in evs:
+                    if e['ev'] == 'Return':
+                        rline = e['site']
+                    if e['ev'] in ('Final', 'Hang'):
+                        parked = [p['line'] for p in e['parked']]
+                    if e['ev'] == 'Quiesced' and e['point'] == 'after-return' and v['clause'] == 'C03.join' and not parked:
+                        parked = [p['line'] for p in e['parked']]
+                sig = signature(v['clause'], prog, rline, parked)
+                real_sigs[sig].append((did, v['tr'], v))
+            for i, txt in races:
+                if 'C01.race' in clauses:
+                    real_sigs['C01.race|race-detector'].append((i, -1, {'detail': txt[:3000]}))
+                else:
+                    rep.notes.append('race detector report on %s (C01\'s business): %s' % (i, txt[:400]))
+            panic_clause = {'C03': 'C03.panic', 'C06': 'C06.panic', 'C07': 'C07.panic'}.get(prop)
+            for i, g, r_ in crashed:
+                msg = r_['stderr']
+                m = re.search(r'panic: ([^\n]*)', msg)
+                top = re.search(r'goroutine \d+ \[running\]:\n(\S+)', msg)
+                in_harness = bool(top and top.group(1).startswith('scratch/rt.'))
+                if m and 'rt.' not in m.group(1) and not in_harness:
+                    if panic_clause:
+                        real_sigs[panic_clause + '|' + m.group(1).strip()[:80]].append((i, -1, {'detail': msg[-3000:]}))
+                    else:
+                        rep.notes.append('injector of %s panicked (%s): business of C03/C06/C07' % (i, m.group(1)[:100]))
+                else:
+                    rep.problem('driver of %s (GOMAXPROCS=%s) exited with %s: %s' % (i, g, r_['rc'], msg[-1500:]))
+
+            # ---- B1: exhaustive interleavings of the extracted programs ------------------------------------------
+            mdecls = [byid[i] for i in ok]
+            mprogs = [progs[i] for i in ok]
+            unmodelled = {p['decl']: p['unmodelled'] for p in mprogs if p['unmodelled']}
+            flags, mstates, mtrans, _ = wb.model_check(w, mdecls, mprogs, modes='none' if modes == 'none' else None, name='mc%d' % sk)
+            # white-box conformance: real executions must be behaviours of the extracted programs (InjectorTrace.tla)
+            tbd = collections.defaultdict(list)
+            for tr, evs in events_by_tr.items():
+                if evs and evs[0].get('ev') == 'Call':
+                    tbd[evs[0]['decl']].append(evs)
+            wt_ok, wt_states, wt_fail = wb.trace_validate(w, mdecls, mprogs, tbd, per_prog=4 if quick else 12, cap=500 if quick else 1500, name='wt%d' % sk)
+            for did, ti, pos, around in wt_fail:
+                rep.problem('Injector.tla cannot explain a real execution of %s (trace %d, stuck before visible event %d: %s): the model of Go\'s '
+                            'primitives or the extractor misrepresents the generated code' % (did, ti, pos, json.dumps(around)[:400]))
+            model_sigs = collections.defaultdict(list)
+            witness = set()
+            wanted_modes = set(modes.split(','))
+
+            def mode_name(m):
+                m = sorted(m)
+                return {(): 'none', ('fail',): 'fail', ('cancel',): 'cancel', ('cancel', 'fail'): 'failcancel'}[tuple(m)]
+            for f in flags:
+                c = f['f']['clause']
+                if c == 'C05.witness':
+                    witness.add(f['prog'])
+                    continue
+                if c not in clauses or mode_name(f['mode']) not in wanted_modes:
+                    continue
+                prog = progs[f['prog']]
+                sig = signature(c, prog, f['f']['rline'], f['f']['parked'])
+                model_sigs[sig].append((f['prog'], mode_name(f['mode']), f['f']))
+            if prop == 'C05':
+                for d in mdecls:
+                    if d['id'] in unmodelled:
                         continue
-                    ev2 = collections.defaultdict(list)
-                    for ln in txt.splitlines():
-                        e = json.loads(ln)
-                        ev2[e['tr']].append(e)
-                    for v in json.load(open(vp2))['viol']:
-                        if v['clause'] not in clauses:
+                    e = {p['id']: p for p in ds.eff_providers(d)}
+                    zia = [p for p in ds.needed(d) if e[p]['kind'] == 'fn' and e[p]['async'] and not e[p]['requires']]
+                    if len(zia) >= 2 and d['id'] not in witness:
+                        model_sigs['C05.overlap'].append((d['id'], 'none', {}))
+
+            # ---- verdicts ------------------------------------------------------------------------------------------
+            def replay_of(did, tr):
+                d = byid[did]
+                src = ''
+                try:
+                    src = open(os.path.join(root, pkg[did], 'k_band.go.orig')).read()
+                except OSError:
+                    pass
+                evs = events_by_tr.get(tr, [])
+                path = None
+                for e in evs:
+                    if e['ev'] == 'End':
+                        path = e['path']
+                return {'decl': d, 'generated': src, 'path': path, 'events': evs[:200]}
+
+            for sig, occ in sorted(real_sigs.items()):
+                did, tr, v = occ[0]
+                what = '%s on declaration %s (%d occurrence(s) in %d declaration(s)); detail=%s' % (
+                    sig, did, len(occ), len({o[0] for o in occ}), json.dumps(v.get('detail', ''))[:300])
+                rep.found(sig, what, replay_of(did, tr))
+            model_only = {s: o for s, o in model_sigs.items() if s not in real_sigs}
+            opn, _ = load_known()
+            unrepro = []
+            for sig, occ in sorted(model_only.items()):
+                # re-drive the real injector of up to 3 of the programs concerned: more schedules, three GOMAXPROCS values
+                reproduced = False
+                for did in sorted({o[0] for o in occ})[:3]:
+                    for g in (1, 2, 16):
+                        rr = pl.run_driver(root, pkg[did], modes=modes, maxruns=maxruns * 4, seed=sd + 17 * g, gomaxprocs=g,
+                                           timeout=900, out=os.path.join(root, pkg[did], 'redrive-%s-%d.ndjson' % (did, g)), decl=did)
+                        if not os.path.exists(rr['trace']):
                             continue
-                        rline, parked = 0, []
-                        for e in ev2.get(v['tr'], []):
-                            if e['ev'] == 'Return':
-                                rline = e['site']
-                            if e['ev'] in ('Final', 'Hang'):
-                                parked = [p['line'] for p in e['parked']]
-                        s2 = signature(v['clause'], progs[did], rline, parked)
-                        if s2 == sig:
-                            reproduced = True
-                            events_by_tr[('r', did, v['tr'])] = ev2[v['tr']]
-                            rep.found(sig, '%s on declaration %s (found by TLC on the extracted program, reproduced on the real '
-                                           'injector by re-driving it)' % (sig, did), replay_of(did, ('r', did, v['tr'])))
+                        txt = open(rr['trace']).read()
+                        r2 = pl.tlc(w, 'InjectorReq', 'InjectorReq.cfg',
+                                    files={'decls.json': json.dumps([ds.tla_decl(byid[did])]), 'trace.ndjson': txt},
+                                    workers=1, timeout=1200, name='redrive-%d-%s-%d-%d' % (sk, did, g, abs(hash(sig)) % 100000))
+                        vp2 = os.path.join(r2['dir'], 'viol.json')
+                        if not os.path.exists(vp2):
+                            continue
+                        ev2 = collections.defaultdict(list)
+                        for ln in txt.splitlines():
+                            e = json.loads(ln)
+                            ev2[e['tr']].append(e)
+                        for v in json.load(open(vp2))['viol']:
+                            if v['clause'] not in clauses:
+                                continue
+                            rline, parked = 0, []
+                            for e in ev2.get(v['tr'], []):
+                                if e['ev'] == 'Return':
+                                    rline = e['site']
+                                if e['ev'] in ('Final', 'Hang'):
+                                    parked = [p['line'] for p in e['parked']]
+                            s2 = signature(v['clause'], progs[did], rline, parked)
+                            if s2 == sig:
+                                reproduced = True
+                                events_by_tr[('r', did, v['tr'])] = ev2[v['tr']]
+                                rep.found(sig, '%s on declaration %s (found by TLC on the extracted program, reproduced on the real '
+                                               'injector by re-driving it)' % (sig, did), replay_of(did, ('r', did, v['tr'])))
+                                break
+                        if reproduced:
                             break
                     if reproduced:
                         break
-                if reproduced:
-                    break
-            if not reproduced:
-                unrepro.append((sig, occ[0]))
-        for sig, o in unrepro:
-            if sig in opn:
-                rep.notes.append('model-level signature %s (known finding %s) not reproduced on real code in this run' % (sig, opn[sig][1]))
-            else:
-                rep.problem('TLC finds %s on the program extracted for %s (mode %s) but the real injector did not reproduce it '
-                            'in %d re-driven schedules; undecided' % (sig, o[0], o[1], maxruns * 12))
+                if not reproduced:
+                    unrepro.append((sig, occ[0]))
+            for sig, o in unrepro:
+                if sig in opn:
+                    rep.notes.append('model-level signature %s (known finding %s) not reproduced on real code in this run' % (sig, opn[sig][1]))
+                else:
+                    rep.problem('TLC finds %s on the program extracted for %s (mode %s) but the real injector did not reproduce it '
+                                'in %d re-driven schedules; undecided' % (sig, o[0], o[1], maxruns * 12))
 
+            # ---- aggregate -------------------------------------------------------------------------------------------
+            nontrivial = [i for i in ok if len(progs[i]['threads']) > 1]
+            agg['ok'] += ok
+            agg['gen_fail'].update(gen_fail)
+            agg['comp_fail'].update(comp_fail)
+            agg['dg_fail'].update(dg_fail)
+            agg['unmodelled'].update(unmodelled)
+            agg['mstates'] += mstates
+            agg['mtrans'] += mtrans
+            agg['nlines'] += len(lines)
+            agg['nexec'] += nexec
+            agg['exhaustive_progs'] += exhaustive_progs
+            for sg, o in real_sigs.items():
+                agg['real_sigs'][sg] += len(o)
+                real_sig_names.add(sg)
+            for sg, o in model_sigs.items():
+                agg['model_sigs'][sg] += len(o)
+            agg['wt_ok'] += wt_ok
+            agg['wt_states'] += wt_states
+            agg['req_states'] += req_states
+            agg['ntraces'] += ntraces
+            agg['nmodelled'] += len(mprogs) - len(unmodelled)
+            agg['nontrivial'] += len(nontrivial)
+            if agg['sample'] is None:
+                sample_decl = byid[nontrivial[0]] if nontrivial else byid[ok[0]]
+                sample_tr = None
+                for tr, evs in events_by_tr.items():
+                    if evs and evs[0].get('decl') == sample_decl['id']:
+                        sample_tr = [{k: v for k, v in e.items() if k not in ('parked',)} for e in evs[:14]]
+                        break
+                agg['sample'] = {'declaration': ds.tla_decl(sample_decl), 'first_events_of_one_real_execution': sample_tr,
+                                 'extracted_program_threads': len(progs[sample_decl['id']]['threads'])}
+            # planner conformance on this slice
+            import design
+            nchk, pdiff = design.planner_conformance(w, mdecls, progs, name='plannercheck%d' % sk)
+            agg.setdefault('nchk', 0)
+            agg.setdefault('pdiff', [])
+            agg['nchk'] += nchk
+            agg['pdiff'] += pdiff
+            import shutil
+            shutil.rmtree(root, ignore_errors=True)
+
+        for sk, sl in enumerate(slices):
+            do_slice(sl, sk)
+        ok = agg['ok']
+        real_sigs = {sg: None for sg in real_sig_names}
+        decls = all_decls
+        byid = byid_all
         # ---- design level: every small declaration planned by Planner.tla and explored by TLC (no Go build) -----
         import design
-        nchk, pdiff = design.planner_conformance(w, mdecls, progs)
+        nchk, pdiff = agg.get('nchk', 0), agg.get('pdiff', [])
         if pdiff:
             rep.notes.append('the generator plans %d of %d declarations differently from Planner.tla (outside the modelled design; '
                              'informational): %s' % (len(pdiff), nchk, pdiff[:8]))
@@ -533,37 +600,29 @@ def run(prop, tier, sd, rep, clauses, modes):
             rep.notes.append('Planner.tla leaves a pool unscheduled for %s' % ddropped[:5])
 
         # ---- evidence ------------------------------------------------------------------------------------------
-        nontrivial = [i for i in ok if len(progs[i]['threads']) > 1]
-        sample_decl = byid[nontrivial[0]] if nontrivial else byid[ok[0]]
-        sample_tr = None
-        for tr, evs in events_by_tr.items():
-            if evs and evs[0].get('decl') == sample_decl['id']:
-                sample_tr = [{k: v for k, v in e.items() if k not in ('parked',)} for e in evs[:14]]
-                break
         rep.cov.update({
-            'states': mstates + req_states + dstates + wt_states,
-            'transitions': mtrans + req_states + dtrans + wt_states,
+            'states': agg['mstates'] + agg['req_states'] + dstates + agg['wt_states'],
+            'transitions': agg['mtrans'] + agg['req_states'] + dtrans + agg['wt_states'],
             'design_level': {'declarations_planned_by_Planner_tla': len(dbyid), 'max_providers': dnmax, 'states': dstates, 'transitions': dtrans,
                              'signatures': {k: len(v) for k, v in dsigs.items()},
                              'planner_conformance_checked': nchk, 'planner_conformance_differences': len(pdiff)},
-            'traces_validated_against_impl': ntraces,
-            'samples': [{'declaration': ds.tla_decl(sample_decl), 'first_events_of_one_real_execution': sample_tr,
-                         'extracted_program_threads': len(progs[sample_decl['id']]['threads'])}],
+            'traces_validated_against_impl': agg['ntraces'],
+            'samples': [agg['sample']],
             'declarations': len(decls), 'declarations_executed': len(ok),
             'declarations_sharing_a_file_with_others': len([d for d in decls if d.get('group')]),
-            'declarations_with_goroutines': len(nontrivial),
-            'generator_refused': sorted(gen_fail)[:20], 'not_compiling_skipped': sorted(comp_fail)[:20],
-            'driver_not_generated': sorted(dg_fail)[:20],
-            'programs_model_checked': len(mprogs) - len(unmodelled), 'programs_unmodelled': unmodelled,
-            'real_executions_explained_by_extracted_program': wt_ok, 'whitebox_trace_states': wt_states,
-            'model_states_distinct': mstates, 'model_transitions': mtrans,
-            'trace_events_validated': len(lines), 'real_executions': nexec,
-            'programs_with_exhaustive_gate_dfs': exhaustive_progs,
+            'declarations_with_goroutines': agg['nontrivial'],
+            'generator_refused': sorted(agg['gen_fail'])[:20], 'not_compiling_skipped': sorted(agg['comp_fail'])[:20],
+            'driver_not_generated': sorted(agg['dg_fail'])[:20],
+            'programs_model_checked': agg['nmodelled'], 'programs_unmodelled': agg['unmodelled'],
+            'real_executions_explained_by_extracted_program': agg['wt_ok'], 'whitebox_trace_states': agg['wt_states'],
+            'model_states_distinct': agg['mstates'], 'model_transitions': agg['mtrans'],
+            'trace_events_validated': agg['nlines'], 'real_executions': agg['nexec'],
+            'programs_with_exhaustive_gate_dfs': agg['exhaustive_progs'],
             'modes': modes, 'clauses_checked': clauses,
-            'signatures_seen_real': {s: len(o) for s, o in real_sigs.items()},
-            'signatures_seen_model': {s: len(o) for s, o in model_sigs.items()},
+            'signatures_seen_real': dict(agg['real_sigs']),
+            'signatures_seen_model': dict(agg['model_sigs']),
             'exhaustive': False,
-            'evaluations': nexec, 'distinct_nontrivial': len(nontrivial),
+            'evaluations': agg['nexec'], 'distinct_nontrivial': agg['nontrivial'],
             'rule': 'one evaluation = one real execution of a generated injector under one gate-level schedule; a declaration is '
                     'non-trivial when its injector starts at least one goroutine',
         })
@@ -574,6 +633,7 @@ def run(prop, tier, sd, rep, clauses, modes):
             'model of Go select/close/errgroup/context in Injector.tla is trusted (about 60 lines)',
             'declarations: <= %d providers, exhaustive for n<=3 shapes (quick: seeded subset), seeded random beyond' % (7 if quick else 8),
         ]
+        gen_fail, comp_fail, dg_fail = agg['gen_fail'], agg['comp_fail'], agg['dg_fail']
         if gen_fail:
             rep.notes.append('generator refused %d accepted declaration(s) (C09\'s business, skipped here): %s'
                              % (len(gen_fail), json.dumps(list(gen_fail.items())[:2])[:600]))
